@@ -131,15 +131,17 @@ def c18_cases(run):
     sessions = [build_session(s, rng) for s in seqs]
     violations = []
 
-    def one(sess):
-        msgs, toks = sess
-        data = b"".join(lc.frame(m) for m in msgs)
+    def one(job):
+        k, (msgs, toks) = job
+        # every sixth session in another legal header style (Content-Type first / last, no blank after the colon)
+        style = [1, 2, 4][(k // 5) % 3] if k % 5 == 0 else 0
+        data = b"".join(lc.frame(m, style) for m in msgs)
         r = lc.run_session([data], timeout=10.0 if len(msgs) < 40 else 30.0)
         return r
 
     pairs = []
     with ThreadPoolExecutor(max_workers=16) as ex:
-        results = list(ex.map(one, sessions))
+        results = list(ex.map(one, list(enumerate(sessions))))
     for (msgs, toks), r, s in zip(sessions, results, seqs):
         line = "RPC " + " ".join(toks) if toks else "RPC"
         if r["timed_out"]:
